@@ -246,8 +246,11 @@ pub fn run_history<K: Kit>(sc: &Scenario, seq: &[u8], logging: bool) -> Result<(
 /// As `run_history`, with a call boundary after the first `split` samples (tree planners: the
 /// first call gets exactly those samples as its budget and normally ends in Timeout; PRM: a second
 /// `construct_roadmap` call and a second query follow the first).
-/// `split` value that selects the prior-life variant (see `prior_life`).
+/// `split` values that select the prior-life variants (see `prior_life`): A = another space object
+/// (coarser, wider, sampled by its own real sampler) with the SAME validity checker; B = the SAME space
+/// object with another validity checker (the obstacle-free world).
 pub const PRIOR_LIFE: usize = usize::MAX;
+pub const PRIOR_LIFE_B: usize = usize::MAX - 1;
 
 /// The coarsest / widest sibling of a space spec: resolution fraction 1 (where the space has a
 /// setter) and boxes twice as wide — what a planner object may have been used with before.
@@ -290,25 +293,42 @@ fn prior_spec(spec: &crate::kit::Spec) -> crate::kit::Spec {
 /// driven with the given samples; afterwards the caller sets it up with the scenario's real problem.
 /// Anything a planner caches across `setup` (resolution, roadmap, checker, links, generator) shows in
 /// the second life, which the ordinary oracles judge.
-fn prior_life<K: Kit>(rig: &mut Rig<K>, sc: &Scenario, seq: &[u8]) {
-    use crate::seams::{HGoal, Scripted};
-    let pspec = prior_spec(&sc.spec);
-    let space = std::sync::Arc::new(Scripted::<K>::new(K::build(&pspec), rig.alphabet.clone()));
+fn prior_life<K: Kit>(rig: &mut Rig<K>, sc: &Scenario, seq: &[u8], same_space: bool) {
+    use crate::seams::{HGoal, SampleMode, Scripted};
+    let pspec = if same_space { sc.spec.clone() } else { prior_spec(&sc.spec) };
+    let space = if same_space { rig.space.clone() } else { std::sync::Arc::new(Scripted::<K>::new(K::build(&pspec), rig.alphabet.clone())) };
     let dist = crate::scen::dist_fn::<K>(&pspec);
     let p_start = rig.goal.samples[0].clone();
     let goal = std::sync::Arc::new(HGoal::<K>::new(vec![(rig.start.clone(), sc.goal_balls[0].1)], vec![rig.start.clone()], dist));
     let pd = std::sync::Arc::new(crate::drv::Pd::<K> { space: space.clone(), start_states: vec![p_start], goal });
-    let free = std::sync::Arc::new(crate::scen::build_world::<K>(&pspec, &crate::scen::WorldSpec { name: "free".into(), obst: vec![] }));
-    rig.drv.setup(pd, free);
-    space.push_script(seq);
-    space.expire_when_exhausted.set(true);
+    let n = seq.len().max(1);
+    if same_space {
+        let free = std::sync::Arc::new(crate::scen::build_world::<K>(&pspec, &crate::scen::WorldSpec { name: "free".into(), obst: vec![] }));
+        rig.drv.setup(pd, free);
+        space.push_script(seq);
+        space.expire_when_exhausted.set(true);
+    } else {
+        // the other space is sampled by its own real sampler (its states may lie outside the real bounds)
+        rig.drv.setup(pd, rig.world.clone());
+        space.mode.set(SampleMode::PassThrough);
+    }
     oxmpl::verif::clock_reset(1_000_000);
     if rig.is_prm() {
-        rig.drv.set_prm_timeout(crate::drv::iters_secs(seq.len().max(1)));
+        rig.drv.set_prm_timeout(crate::drv::iters_secs(if same_space { n } else { 3 * n }));
         let _ = rig.drv.construct_roadmap();
         let _ = rig.drv.solve(LONG);
     } else {
-        let _ = rig.drv.solve(crate::drv::iters(seq.len().max(1)));
+        let _ = rig.drv.solve(crate::drv::iters(if same_space { n } else { 3 * n }));
+    }
+    if same_space {
+        // leave the shared sampler seam as a fresh rig has it
+        space.script.borrow_mut().clear();
+        space.pos.set(0);
+        space.calls.set(0);
+        space.overdrawn.set(0);
+        space.expire_when_exhausted.set(sc.params.bias >= 1.0);
+        space.log.borrow_mut().clear();
+        space.call_seqs.borrow_mut().clear();
     }
     // the second life starts with fresh harness-side counters and logs
     crate::seams::seam_reset();
@@ -316,12 +336,12 @@ fn prior_life<K: Kit>(rig: &mut Rig<K>, sc: &Scenario, seq: &[u8]) {
 }
 
 pub fn run_history_split<K: Kit>(sc: &Scenario, seq: &[u8], logging: bool, split: usize) -> Result<(Rig<K>, Exec<K>), Caught> {
-    if split == PRIOR_LIFE {
+    if split == PRIOR_LIFE || split == PRIOR_LIFE_B {
         SPLIT.with(|s| s.set(split));
-        watch_desc(|| format!("{{\"scenario\": {:?}, \"samples\": {:?}, \"prior_life\": true}}", sc.tag, seq));
+        watch_desc(|| format!("{{\"scenario\": {:?}, \"samples\": {:?}, \"prior_life\": {:?}}}", sc.tag, seq, if split == PRIOR_LIFE { "other-space" } else { "other-checker" }));
         let mut rig = guarded(|| {
             let mut rig = Rig::<K>::new(sc, false);
-            prior_life::<K>(&mut rig, sc, seq);
+            prior_life::<K>(&mut rig, sc, seq, split == PRIOR_LIFE_B);
             let (pd, w) = (rig.pd.clone(), rig.world.clone());
             rig.drv.setup(pd, w);
             rig
@@ -420,9 +440,10 @@ pub fn par_explore<K: Kit>(
                     };
                     let mut ks = ks;
                     ks.push(PRIOR_LIFE);
+                    ks.push(PRIOR_LIFE_B);
                     for k in ks {
                         let r = run_history_split::<K>(&sh.sc, seq, logging, k);
-                        if k == PRIOR_LIFE {
+                        if k == PRIOR_LIFE || k == PRIOR_LIFE_B {
                             rep.count("prior_life_histories", 1);
                         }
                         rep.count("evaluations", 1);
